@@ -559,7 +559,7 @@ func (e fakeExecutor) finishWith(rec *execRec, nonOK bool) *remoteexecution.Exec
 	m := e.m
 	resp := &remoteexecution.ExecuteResponse{
 		Result:  &remoteexecution.ActionResult{},
-		Message: fmt.Sprintf("token-b%d-v%d-x%d", m.cfg.base, m.cfg.variant, rec.id),
+		Message: fmt.Sprintf("token-b%d-v%d-x%d", m.cfg.Base, m.cfg.Variant, rec.id),
 	}
 	m.mu.Lock()
 	if rec.cancelSeen {
